@@ -72,3 +72,27 @@ Proof.
   - unfold set_cluster. destruct (Gen.set_cluster c). reflexivity.
 Qed.
 
+
+(** * C03: re-creating (wiping) an existing file always rewrites its directory and flushes the FAT — also when the file is already empty
+    (C03-m5 returned early in that case, so the new time stamps existed in memory only) *)
+Theorem create_wipe_rewrites_directory s path t s' ploc e :
+  get_dir_entry s path = Ok (EAt ploc e) -> is_dir e = false ->
+  op_create s path true t = Ok (true, s') ->
+  exists es s1 s2,
+    read_dir s ploc = Ok es /\
+    (if get_cluster e =? 0 then s1 = s else free_chain s (get_cluster e) = Ok s1) /\
+    write_dir s1 ploc (map (fun x => if list_eqb (d_name x) (d_name e)
+                                      then set_lfn (set_size (set_cluster (set_times e (d_crttime e) (d_crtdate e) (date_of t) (time_of t) (date_of t)) 0) 0) (d_lfn x)
+                                      else x) es) = Ok s2 /\
+    flush_fat s2 = Ok s'.
+Proof.
+  intros Hg Hd H. unfold op_create in H. destruct (split_last path) as [[dirp n]|]; [|discriminate].
+  match type of H with bind ?X _ = _ => destruct X as [base|]; [|discriminate] end. cbn [bind] in H.
+  rewrite Hg, Hd in H. cbn [negb] in H.
+  destruct (read_dir s ploc) as [es|] eqn:Er; [|discriminate]. cbn [bind] in H. cbv zeta in H.
+  match type of H with bind ?X _ = _ => destruct X as [s1|] eqn:E1; [|discriminate] end. cbn [bind] in H.
+  match type of H with bind ?X _ = _ => destruct X as [s2|] eqn:E2; [|discriminate] end. cbn [bind] in H.
+  match type of H with bind ?X _ = _ => destruct X as [s3|] eqn:E3; [|discriminate] end. cbn [bind] in H.
+  inversion H; subst s3. exists es, s1, s2. split; [reflexivity|]. split; [|split; [exact E2|exact E3]].
+  destruct (get_cluster e =? 0); [inversion E1; reflexivity|exact E1].
+Qed.
